@@ -1,7 +1,8 @@
 //! Domain `styles` (C05): styles and dimensions of cells, rows and columns across save / reload.
 //!
 //! case = {"case": id, "steps": [ {"a":"Init","n":2},          n new workbooks (default 1)
-//!           {"a":"Assign","w":1,"cells":[{"r","c","sty"}],"rows":[{"r","ht","hid","sty"}],"cols":[{"c","w","hid","sty"}]},
+//!           {"a":"Assign","w":1,"cells":[{"r","c","sty"}],"rows":[{"r","ht","ch","ord","hid","tb","dd","sty"}],"cols":[{"c","w","hid","bf","sty"}]},
+//!                        (row: height, customHeight and the order of their two setters, hidden, thickBot, dyDescent; column: bestFit)
 //!           {"a":"Import","w":1,"v":2,"items":[{"k":"cell"|"row"|"col","r","c","r2","c2"}]},
 //!                        the Style of cell (r2,c2) of workbook v (get_style(..).clone()) is set on a carrier of workbook w
 //!           {"a":"Save","w":1}, {"a":"Reload","w":1}, .. ]}      ("w" = workbook acted on, 1-based, default 1)
@@ -225,8 +226,10 @@ fn project(ws: &Worksheet) -> Value {
         if let Some(r) = ws.get_row_dimension(&rn) {
             let e = eff_style(r.get_style(), &def);
             let ht = show_f64(*r.get_height());
-            if ht != "0" || *r.get_hidden() || e != plain {
-                rows.push(json!({"r": rn.min(OOB), "ht": ht, "hid": r.get_hidden(), "sty": e}));
+            let dd = show_f64(*r.get_descent());
+            if ht != "0" || *r.get_hidden() || *r.get_custom_height() || *r.get_thick_bot() || dd != "0" || e != plain {
+                rows.push(json!({"r": rn.min(OOB), "ht": ht, "hid": r.get_hidden(), "ch": r.get_custom_height(),
+                                 "tb": r.get_thick_bot(), "dd": dd, "sty": e}));
             }
         }
     }
@@ -237,8 +240,8 @@ fn project(ws: &Worksheet) -> Value {
         if let Some(c) = ws.get_column_dimension_by_number(&cn) {
             let e = eff_style(c.get_style(), &def);
             let w = show_f64(*c.get_width());
-            if w != "8.38" || *c.get_hidden() || e != plain {
-                cols.push(json!({"c": cn.min(OOB), "w": w, "hid": c.get_hidden(), "sty": e}));
+            if w != "8.38" || *c.get_hidden() || *c.get_best_fit() || e != plain {
+                cols.push(json!({"c": cn.min(OOB), "w": w, "hid": c.get_hidden(), "bf": c.get_best_fit(), "sty": e}));
             }
         }
     }
@@ -256,16 +259,29 @@ fn assign(book: &mut Spreadsheet, st: &Value) {
     let ws = book.get_sheet_mut(&0).expect("sheet");
     for r in st["rows"].as_array().unwrap() {
         let row = ws.get_row_dimension_mut(&u(r, "r"));
+        // the two orders of the height setters: "hc" set_height, set_custom_height / "ch" the other way round
+        // (set_height switches customHeight on); a height "0" means: no set_height call
+        if s(r, "ord") == "ch" {
+            row.set_custom_height(b(r, "ch"));
+        }
         if s(r, "ht") != "0" {
             row.set_height(fnum(s(r, "ht")));
         }
+        if s(r, "ord") != "ch" {
+            row.set_custom_height(b(r, "ch"));
+        }
         row.set_hidden(b(r, "hid"));
+        row.set_thick_bot(b(r, "tb"));
+        if s(r, "dd") != "0" {
+            row.set_descent(fnum(s(r, "dd")));
+        }
         row.set_style(make_style(&r["sty"]));
     }
     for c in st["cols"].as_array().unwrap() {
         let col = ws.get_column_dimension_by_number_mut(&u(c, "c"));
         col.set_width(fnum(s(c, "w")));
         col.set_hidden(b(c, "hid"));
+        col.set_best_fit(b(c, "bf"));
         col.set_style(make_style(&c["sty"]));
     }
     for c in st["cells"].as_array().unwrap() {
